@@ -235,10 +235,16 @@ class TooDeep(Exception):
 class DataGen:
     def __init__(self, rng, named, hints=True, max_depth=5, big=False):
         self.rng, self.named, self.hints, self.max_depth, self.big = rng, named, hints, max_depth, big
+        # total size budget of one datum (bytes of string/bytes content): keeps the Gallina terms and the text the model
+        # prints small enough to evaluate inside Coq in a few hundred MB
+        self.budget = (9000 if big and rng.random() < 0.15 else 3000) if big else 2500
 
     def string(self):
         rng = self.rng
         n = rng.choice([0, 1, 1, 2, 3, 5, 8, 63, 64] + ([8191, 8192] if self.big and rng.random() < 0.3 else []))
+        if 4 * n > self.budget and not (n >= 8191 and self.budget >= 2400 and self.big):
+            n = rng.choice([0, 1, 2, 3])
+        self.budget = 0 if n >= 8191 else self.budget - 4 * n       # one long string is cheap; many medium ones are not
         al = rng.choice(["ascii", "latin", "bmp", "astral", "mixed"])
         def ch():
             a = al if al != "mixed" else rng.choice(["ascii", "latin", "bmp", "astral"])
@@ -255,11 +261,17 @@ class DataGen:
         rng = self.rng
         if n is None:
             n = rng.choice([0, 1, 2, 3, 7, 63, 64, 65, 256] + ([8192] if self.big and rng.random() < 0.2 else []))
+            if n > self.budget and not (n >= 8192 and self.budget >= 2400 and self.big):
+                n = rng.choice([0, 1, 2, 3])
+            self.budget = 0 if n >= 8192 else self.budget - n
         if n == 256:
             return bytes(range(256))
         return bytes(rng.randrange(256) for _ in range(n))
 
     def size(self):
+        if self.budget < 500:
+            return self.rng.choice([0, 1, 2])
+        self.budget -= 100
         return self.rng.choice([0, 0, 1, 1, 2, 3, 4] + ([63, 64, 65] if self.rng.random() < 0.25 else []) +
                                ([130] if self.big and self.rng.random() < 0.2 else []))
 
